@@ -85,8 +85,8 @@ Universe ==
                        \cup ({Ins(mn, <<Sg(s)>>) : mn \in {"PUSH", "POP"}, s \in 0..5} \ {Ins("POP", <<Sg(1)>>)})
     [] Part = "acc" -> UNION {{Ins("MOV", <<Rg(w, 0), M(0, 0, -1, -1, 1, d, 1)>>), Ins("MOV", <<M(0, 0, -1, -1, 1, d, 1), Rg(w, 0)>>)}
                                : w \in W, d \in {0, 4080, 32767, 32768, 65535, 65536, 305419896}}
-                       \cup {Ins("IN", <<Rg(w, 0), p>>) : w \in W, p \in {Im(0, "d"), Im(33, "h"), Im(161, "h"), Im(255, "h"), Rg(16, 2)}}
-                       \cup {Ins("OUT", <<p, Rg(w, 0)>>) : w \in W, p \in {Im(0, "d"), Im(33, "h"), Im(161, "h"), Im(255, "h"), Rg(16, 2)}}
+                       \cup {Ins("IN", <<Rg(w, 0), p>>) : w \in W, p \in {Im(0, "d"), Im(33, "h"), Im(161, "h"), Im(255, "h"), Im(256, "h"), Im(1016, "h"), Im(-1, "d"), Rg(16, 2)}}
+                       \cup {Ins("OUT", <<p, Rg(w, 0)>>) : w \in W, p \in {Im(0, "d"), Im(33, "h"), Im(161, "h"), Im(255, "h"), Im(256, "h"), Im(1016, "h"), Im(-1, "d"), Rg(16, 2)}}
                        \cup {Ins(mn, <<Rg(w, 0), i>>) : mn \in AluI, w \in W, i \in Imms}
     [] Part = "stack" -> {Ins(mn, <<Rg(w, r)>>) : mn \in {"PUSH", "POP"}, w \in {16, 32}, r \in Regs}
                          \cup {Ins("PUSH", <<i>>) : i \in Imms}
